@@ -328,6 +328,7 @@ fn lib_preds(s: &Script) -> Preds {
 
 pub fn check_template(r: &Report, bytes: &[u8], blinder: Option<elements::secp256k1_zkp::PublicKey>) {
     r.trans(1);
+    crate::engine::crash::crumb("script-template", bytes);
     let s = Script::from(bytes.to_vec());
     let rp = ref_preds(bytes);
     let case = || json!({"script": crate::engine::hex(bytes)});
